@@ -176,7 +176,7 @@ func checkString(s string) (parsed bool, err error) {
 				if p[n-1] == c {
 					continue
 				}
-				q := p[:n-1] + string(c)
+				q := p[:n-1] + string([]byte{c})
 				want := strings.HasPrefix(s, q) && len(q) >= minLen
 				if got := ref.HasPrefix(q); got != want {
 					return ok, mm("ref %q HasPrefix(%q) = %v, want %v", s, q, got, want)
@@ -472,14 +472,20 @@ func TestRapidRefStrings(t *testing.T) {
 			base = rapid.OneOf(genSupportedRefText(), genUnknownRefText()).Draw(t, "base")
 			pos := rapid.IntRange(0, len(base)-1).Draw(t, "pos")
 			c := rapid.SampledFrom([]byte("0fgAF-z /\x00\xff")).Draw(t, "c")
-			s = base[:pos] + string(c) + base[pos+1:]
+			switch rapid.IntRange(0, 5).Draw(t, "substitute") {
+			case 0, 1: // any byte
+				c = rapid.Byte().Draw(t, "anyByte")
+			case 2: // a hex digit, or the byte at the substituted position, with another high bit pattern
+				c = rapid.SampledFrom([]byte{base[pos], '0', '9', 'a', 'f'}).Draw(t, "digit") ^ rapid.SampledFrom([]byte{0x80, 0x40, 0x20, 0x10, 0xc0}).Draw(t, "flip")
+			}
+			s = base[:pos] + string([]byte{c}) + base[pos+1:]
 			evid.R.Label("rapid/one-char-substitution")
 		case 5: // wrong length: drop or add
 			base = rapid.OneOf(genSupportedRefText(), genUnknownRefText()).Draw(t, "base")
 			pos := rapid.IntRange(0, len(base)).Draw(t, "pos")
 			if rapid.Bool().Draw(t, "insert") {
 				c := rapid.SampledFrom([]byte("0fa-g")).Draw(t, "c")
-				s = base[:pos] + string(c) + base[pos:]
+				s = base[:pos] + string([]byte{c}) + base[pos:]
 			} else if pos < len(base) {
 				s = base[:pos] + base[pos+1:]
 			} else {
